@@ -300,7 +300,15 @@ class PathEnum:
                     continue
                 d = s["d"]
                 key = self.key(d)
-                if d[1] or fn.locals[d[0]].get("u") or d[0] == 0 or d[0] <= fn.argc:
+                if not (d[1] or fn.locals[d[0]].get("u") or d[0] == 0 or d[0] <= fn.argc):
+                    # compiler temporary: remember a constant bool (e.g. the result of `matches!`), no event
+                    state.pop(key, None)
+                    r = s["r"]
+                    if fn.locals[d[0]]["ty"] == "bool" and r["k"] == "use" and r["o"].get("k") is not None:
+                        kv = r["o"]["k"].get("v", r["o"]["k"].get("t"))
+                        if kv in ("0", "1", 0, 1, True, False, "true", "false"):
+                            state[key] = kv in ("1", 1, True, "true")
+                else:
                     # user-visible place: record
                     v = None
                     r = s["r"]
